@@ -9,7 +9,7 @@ use anyhow::{bail, Context, Result};
 use crate::{
     instruction,
     parser::{AssocFileData, Node, Parser, Rule},
-    VecErr,
+    CompilationError, VecErr,
 };
 
 use super::{
@@ -403,7 +403,12 @@ impl Parser {
                 .for_type(&TypecheckFlags::use_class(
                     input.user_data().get_type_of_executing_class()
                 ))
-                .unwrap()
+                .details(
+                    value_span,
+                    &input.user_data().get_source_file_name(),
+                    "the type of this value cannot be determined"
+                )
+                .to_err_vec()?
                 .disregard_distractors(true),
             TypeLayout::Void
         ) {
